@@ -249,6 +249,25 @@ def r7(ctx, rep):
     rep.check(q is not None and q.get("def") == "def", "def-into-rq", "RelationalQuery.def must carry that header to the SQL back-end", file=lo["file"], line=lo["l"], fn=lo["path"])
 
 
+def r8(ctx, rep):
+    rep.rule("C18.R8", "the names `Dialect::from_str` accepts are exactly the names it displays and lists (an unknown name, including another spelling of a known one, is an error)", floor=2)
+    import re
+    syn = ctx.syn
+    d = syn.adt("Dialect", crate="prqlc", file_suffix="sql/dialect.rs")
+    derives = " ".join(a["args"] for a in d["attrs"] if a["name"] == "derive")
+    rep.check(all(w in derives.replace(" ", "") for w in ("strum::Display", "strum::EnumString", "strum::VariantNames")), "derives",
+              f"Dialect parses (EnumString), prints (Display) and lists (VariantNames) its names with strum; found derives `{derives[:160]}`", file=d["file"], line=d["l"])
+    # attributes that widen what is PARSED without changing what is printed / listed
+    widening = re.compile(r"ascii_case_insensitive|\bserialize\s*=|\bdefault\b|\bdisabled\b|parse_err")
+    enum_args = [a["args"] for a in d["attrs"] if a["name"] == "strum"]
+    bad = [x for x in enum_args if widening.search(x)]
+    rep.check(enum_args == ['serialize_all = "lowercase"'] and not bad, "enum-attrs", f"`#[strum({', '.join(enum_args)})]` on Dialect: only `serialize_all = \"lowercase\"` is expected; "
+              "`ascii_case_insensitive` (or an alternative `serialize = ..`) makes from_str accept names such as `sql.MsSql` that `prqlc list-targets` does not list and that are unknown targets",
+              file=d["file"], line=d["l"])
+    vbad = [(v["name"], a["args"]) for v in d["variants"] for a in v.get("attrs", []) if a["name"] == "strum" and widening.search(a["args"])]
+    rep.check(not vbad, "variant-attrs", f"variant attribute(s) {vbad} add spellings that from_str accepts but Display / VariantNames do not produce", file=d["file"], line=d["l"])
+
+
 def run(ctx, rep):
-    for r in (r1, r2, r3, r4, r5, r6, r7):
+    for r in (r1, r2, r3, r4, r5, r6, r7, r8):
         rep.guard(r, ctx)
